@@ -35,7 +35,40 @@ func drawDepth(t *rapid.T) int {
 	return rapid.SampledFrom([]int{0, 1, 1, 2, 2, 2, d, d, d, d - 1}).Draw(t, "depth")
 }
 
+// genDistractor builds the shape "a member of a message array matches
+// the beginning of a pattern member, binds a variable, and then fails; the
+// member that does match comes later (or earlier - arrays are sets)":
+// whatever the failed attempt bound must not survive into the result.
+func genDistractor(t *rapid.T) SoundCase {
+	v := rapid.SampledFrom([]string{"??x", "?x", "??x"}).Draw(t, "dvar")
+	k1 := rapid.SampledFrom([]string{"a", "b"}).Draw(t, "dk1") // the variable's key
+	k2 := rapid.SampledFrom([]string{"c", "d"}).Draw(t, "dk2") // sorts later; decides
+	c1 := jsongen.Scalar(t, jsongen.Opts{NoNull: true}, "dc1")
+	c2 := jsongen.Scalar(t, jsongen.Opts{NoNull: true}, "dc2")
+	if refmatch.Equal(c1, c2) {
+		c2 = "other"
+	}
+	pm := map[string]interface{}{k1: v, k2: c1}
+	distractor := map[string]interface{}{k1: jsongen.Scalar(t, jsongen.Opts{NoNull: true}, "dv"), k2: c2}
+	witness := map[string]interface{}{k2: c1}
+	if v == "?x" || rapid.Bool().Draw(t, "dwit") {
+		witness[k1] = jsongen.Scalar(t, jsongen.Opts{NoNull: true}, "dw")
+	}
+	members := []interface{}{distractor, witness}
+	for i := rapid.IntRange(0, 2).Draw(t, "dextra"); i > 0; i-- {
+		members = append(members, map[string]interface{}{k1: jsongen.Scalar(t, jsongen.Opts{NoNull: true}, fmt.Sprintf("de%d", i)), k2: "neither", "e": float64(i)})
+	}
+	var p, m interface{} = []interface{}{pm}, members
+	if rapid.Bool().Draw(t, "dnest") {
+		p, m = map[string]interface{}{"arr": p, "k": "?y"}, map[string]interface{}{"arr": m, "k": 1.0}
+	}
+	return SoundCase{Pattern: p, Message: m, Bindings: map[string]interface{}{}, Kind: "distractor"}
+}
+
 func genSound(t *rapid.T) SoundCase {
+	if rapid.IntRange(0, 9).Draw(t, "distractor") == 0 {
+		return genDistractor(t)
+	}
 	d := drawDepth(t)
 	o := patgen.Opts{Depth: d, Width: 3}
 	p := patgen.Pattern(t, o)
